@@ -95,6 +95,13 @@ func (r *Parser) Next(f *Field) bool {
 // Err returns the last read error. At the end of input
 // it will always be equal to io.EOF.
 func (r *Parser) Err() error {
+	if r.inputScanner != nil {
+		// A failed read wins over the "unexpected EOF" the field parser reports for the line the
+		// failure cut short: the input did not end, reading it failed.
+		if err := r.inputScanner.Err(); err != nil {
+			return err
+		}
+	}
 	if err := r.fieldScanner.Err(); err != nil {
 		return err
 	}
